@@ -1,5 +1,6 @@
 import RichModel.Drv.Proto
 import RichModel.Model.Color
+import RichModel.Model.ColorMore
 /- Driver handlers for property C18 (colour down-conversion, SGR parameters, palette search).
 
 Colour on the wire: `name<TAB>type<TAB>number<TAB>triplet` with name = code points, type = 0..4,
@@ -118,6 +119,76 @@ def handlers : List (String × (List String → String)) := [
           s!"{r},{g},{b}"
         else "unmodelled"
       | _, _, _, _ => "unmodelled"
+    | _ => "bad-args"),
+  -- blend_rgb in IEEE doubles: cross_fade = `f num sh` (num / 2^sh, exactly the double), `inf`, `-inf`, `nan`.
+  -- Finite values outside 2^-900 ≤ |x| ≤ 2^900 (products could be subnormal or overflow) are unmodelled.
+  ("color.blendf", fun a => match a with
+    | [t1, t2, kind, num, sh] =>
+      match decTriplet t1, decTriplet t2, num.toInt?, sh.toNat? with
+      | some (some x), some (some y), some k, some n =>
+        let cf : Option PyFloat :=
+          if kind == "f" then
+            (if k = 0 ∨ (2 ^ n ≤ k.natAbs * 2 ^ 900 ∧ k.natAbs ≤ 2 ^ (900 + n)) then some (.finite k n) else none)
+          else if kind == "inf" then some .posInf else if kind == "-inf" then some .negInf
+          else if kind == "nan" then some .nan else none
+        match cf with
+        | some cf =>
+          (match blendRgbF x y cf with
+           | .ok (r, g, b) => s!"ok {r},{g},{b}"
+           | .error .overflowError => "err:Other:OverflowError"
+           | .error .valueError => "err:ValueError")
+        | none => "unmodelled"
+      | _, _, _, _ => "unmodelled"
+    | _ => "bad-args"),
+  -- the exact-rational blend of one channel, cross_fade = num/den
+  ("color.blendq", fun a => match a with
+    | [c1, c2, num, den] =>
+      match c1.toNat?, c2.toNat?, num.toInt?, den.toNat? with
+      | some c1, some c2, some k, some d =>
+        if c1 ≤ 255 ∧ c2 ≤ 255 ∧ 0 < d then toString (blendChannelQ c1 c2 k d) else "unmodelled"
+      | _, _, _, _ => "unmodelled"
+    | _ => "bad-args"),
+  -- parse_rgb_hex on any string of code points (no surrogates: Lean's `Char` has none)
+  ("color.parse_hexu", fun a => match a with
+    | [s] =>
+      if (s.splitOn " ").all (fun x => match x.toNat? with | some n => !(55296 ≤ n ∧ n ≤ 57343) | none => true) then
+        encRes (fun (r, g, b) => s!"{r},{g},{b}") (parseRgbHexU (decStr s))
+      else "unmodelled"
+    | _ => "bad-args"),
+  -- int(chr(cp) + chr(o), 16) and int(chr(o) + chr(cp), 16) for the 256 code points cp = base .. base + 255
+  ("color.int16_block", fun a => match a with
+    | [base, o] =>
+      match base.toNat?, o.toNat? with
+      | some base, some o =>
+        if base + 255 < 1114112 ∧ ¬ (55296 ≤ base + 255 ∧ base ≤ 57343) ∧ o < 55296 then
+          let enc : Except ColorErr Int → String := fun r => match r with | .ok v => toString v | .error _ => "e"
+          " ".intercalate ((List.range 256).map (fun i =>
+            enc (pyIntHex2U (Char.ofNat (base + i)) (Char.ofNat o)) ++ "/" ++ enc (pyIntHex2U (Char.ofNat o) (Char.ofNat (base + i)))))
+        else "unmodelled"
+      | _, _ => "unmodelled"
+    | _ => "bad-args"),
+  -- ColorTriplet.rgb
+  ("color.rgbstr", fun a => match a with
+    | [tri] => match decTriplet tri with
+      | some (some t) => encStr t.rgbStr
+      | _ => "unmodelled"
+    | _ => "bad-args"),
+  -- Color.system, Color.is_system_defined, Color.is_default
+  ("color.props", fun a => match a with
+    | [name, ty, num, tri] =>
+      match decColor name ty num tri with
+      | some c => s!"ok {c.system.toNat} {encBool c.isSystemDefined} {encBool c.isDefault}"
+      | none => "unmodelled"
+    | _ => "bad-args"),
+  -- the saturation decision in exact arithmetic and whether (max, min) is a tabulated float exception
+  ("color.satrat", fun a => match a with
+    | [mx, mn] =>
+      match mx.toNat?, mn.toNat? with
+      | some M, some m =>
+        if m ≤ M ∧ M ≤ 255 then
+          encBool (satLowRat ⟨M, m, m⟩) ++ " " ++ encBool (satExcDouble.contains (M, m))
+        else "unmodelled"
+      | _, _ => "unmodelled"
     | _ => "bad-args"),
   -- Palette.match / Palette.__getitem__ on one of the translated palettes
   ("color.match", fun a => match a with
